@@ -76,6 +76,13 @@ def run(ctx, rep):
         good_ex = [[], [gstate], [gprops], [], [gstate]]
         cases.append((pre + [(op, 0)], pre_ex + bad_ex, k % 256)); meta.append((name, f, opname, "mixed"))
         cases.append((pre + [(op, 0)], pre_ex + good_ex, k % 256)); meta.append((name, f, opname, "good-only"))
+    # get_capabilities when the FIRST page is genuine and asks for a second one: the hostile frame answers the second query
+    gcaps_more = A.mk_frame(A.caps_body([(0x0214, [1]), (0x0212, [1])], more=1))
+    second = [(n, f) for n, f in pick] + [("caps-id-nonquery-type", A.mk_frame(good["caps"], ftype=t)) for t in (2, 4, 5, 6)] \
+        + [("caps-id-short-nonquery", A.mk_frame([0xB5, 0], ftype=5)), ("caps-id-empty-nonquery", A.mk_frame([0xB5], ftype=2))]
+    for k, (name, f) in enumerate(second):
+        cases.append(([(3, 0)], [[gcaps_more], [f]], k % 256)); meta.append((name, f, "get_capabilities", "mixed"))
+        cases.append(([(3, 0)], [[gcaps_more], []], k % 256)); meta.append((name, f, "get_capabilities", "good-only"))
     nb = ctx.n(400, 4000) * 2
     res = D.compare(ctx, rep, cases[:nb], tag="ops-hostile")
     res += [D.run_impl(*c) for c in cases[nb:]]
